@@ -19,6 +19,7 @@ package peerstream
 import (
 	"encoding/json"
 	"fmt"
+	"path/filepath"
 	"sort"
 	"strings"
 	"testing"
@@ -199,6 +200,10 @@ func (x *verifC17Exporter) mutate(t *rapid.T, only string) (string, []string) {
 	pickSvc := func() string {
 		if only != "" {
 			return only
+		}
+		// prefer services that already have instances, so that updates meet stored state
+		if have := x.services(); len(have) > 0 && rapid.IntRange(0, 9).Draw(t, "existing") < 6 {
+			return rapid.SampledFrom(have).Draw(t, "svc")
 		}
 		return rapid.SampledFrom(verifC17Services).Draw(t, "svc")
 	}
@@ -421,7 +426,7 @@ func TestVerifC17ImportArbitrary(t *testing.T) {
 			}
 			return models[k]
 		}
-		n := rapid.IntRange(2, maxUpd).Draw(t, "nupdates")
+		n := rapid.IntRange(3, maxUpd).Draw(t, "nupdates")
 		for j := 0; j < n; j++ {
 			peer := verifC17PeerA
 			if rapid.IntRange(0, 9).Draw(t, "peer") < 2 {
@@ -458,6 +463,16 @@ func TestVerifC17ImportArbitrary(t *testing.T) {
 				verifC17Run(t, c, st, op)
 			default:
 				svc := rapid.SampledFrom(verifC17Services).Draw(t, "svc")
+				// prefer services this peer was already sent, so that the snapshot meets stored state
+				var have []string
+				for _, s := range verifC17Services {
+					if models[peer+"/"+s] != nil {
+						have = append(have, s)
+					}
+				}
+				if len(have) > 0 && rapid.IntRange(0, 9).Draw(t, "existing") < 6 {
+					svc = rapid.SampledFrom(have).Draw(t, "svc")
+				}
 				m := model(peer, svc)
 				nm := rapid.IntRange(0, 3).Draw(t, "nmut")
 				for q := 0; q < nm; q++ {
@@ -502,7 +517,7 @@ func TestVerifC17ImportConsistent(t *testing.T) {
 		}
 		delivered := map[string]bool{} // services the importer may hold rows for
 		listSent := false
-		rounds := rapid.IntRange(1, maxRounds).Draw(t, "rounds")
+		rounds := rapid.IntRange(2, maxRounds).Draw(t, "rounds")
 		for r := 0; r < rounds; r++ {
 			dirty := map[string]bool{}
 			nm := rapid.IntRange(1, 4).Draw(t, "nmut")
@@ -640,10 +655,10 @@ func TestVerifC17Replay(t *testing.T) {
 		if err := json.Unmarshal(rp.Ops[0], &probe); err != nil || strings.HasPrefix(probe.Kind, "x-") {
 			continue // a replay of the exporting-side check (package state)
 		}
-		t.Logf("replaying %s (%d ops)", path, len(rp.Ops))
-		c := rec.NewCase()
-		c.Label("replay")
-		func() {
+		t.Run(filepath.Base(path), func(t *testing.T) {
+			t.Logf("replaying %s (%d ops)", path, len(rp.Ops))
+			c := rec.NewCase()
+			c.Label("replay")
 			defer c.GuardPanic(t, "C17/panic")
 			st := verifC17NewState(t, c)
 			for _, raw := range rp.Ops {
@@ -653,7 +668,7 @@ func TestVerifC17Replay(t *testing.T) {
 				}
 				verifC17Run(t, c, st, op)
 			}
-		}()
-		c.Done()
+			c.Done()
+		})
 	}
 }
